@@ -70,19 +70,64 @@ theorem applyLoop_writes (l : List (Tpl × Rendered)) : ∀ (i0 : Nat) (w : Writ
         intro w hw
         obtain ⟨j, hj, h1, h2⟩ := ih (i0 + 1) w hw
         exact ⟨j + 1, by simp; omega, by rw [h1]; congr 1; omega, by simpa using h2⟩
-      dsimp only at hw
       split at hw
-      · simp only [List.mem_singleton] at hw
-        subst hw
-        exact here
-      · simp only [List.mem_cons] at hw
-        rcases hw with hw | hw
-        · subst hw; exact here
-        · exact later w hw
-      · simp only [List.mem_cons] at hw
-        rcases hw with hw | hw
-        · subst hw; exact here
-        · exact later w hw
+      · simp at hw
+      · dsimp only at hw
+        split at hw
+        · simp only [List.mem_singleton] at hw
+          subst hw
+          exact here
+        · simp only [List.mem_cons] at hw
+          rcases hw with hw | hw
+          · subst hw; exact here
+          · exact later w hw
+        · simp only [List.mem_cons] at hw
+          rcases hw with hw | hw
+          · subst hw; exact here
+          · exact later w hw
+
+/-- everything the apply loop sends is `sentFor` of the rendered template it is sent for -/
+theorem applyLoop_sent (l : List (Tpl × Rendered)) : ∀ (i0 : Nat) (s : Sent), s ∈ (applyLoop i0 l).2.1 →
+    ∃ j, ∃ h : j < l.length, s.idx = i0 + j ∧ (l[j]).2.rendered = true ∧
+      sentFor (l[j]).1 (l[j]).2.cd = .ok (s.body, s.stored) := by
+  induction l with
+  | nil => intro i0 s h; simp [applyLoop] at h
+  | cons x xs ih =>
+    obtain ⟨t, r⟩ := x
+    intro i0 s hs
+    have later : ∀ s, s ∈ (applyLoop (i0 + 1) xs).2.1 →
+        ∃ j, ∃ h : j < (((t, r) :: xs)).length, s.idx = i0 + j ∧ (((t, r) :: xs)[j]).2.rendered = true ∧
+          sentFor (((t, r) :: xs)[j]).1 (((t, r) :: xs)[j]).2.cd = .ok (s.body, s.stored) := by
+      intro s hs
+      obtain ⟨j, hj, h1, h2, h3⟩ := ih (i0 + 1) s hs
+      exact ⟨j + 1, by simp; omega, by rw [h1]; omega, by simpa using h2, by simpa using h3⟩
+    unfold applyLoop at hs
+    split at hs
+    · simp only at hs
+      exact later s hs
+    · rename_i hr
+      have hrend : r.rendered = true := by simpa using hr
+      split at hs
+      · simp at hs
+      · rename_i b st hsf
+        have here : ∀ s : Sent, s = ⟨i0, b, st⟩ →
+            ∃ j, ∃ h : j < (((t, r) :: xs)).length, s.idx = i0 + j ∧ (((t, r) :: xs)[j]).2.rendered = true ∧
+              sentFor (((t, r) :: xs)[j]).1 (((t, r) :: xs)[j]).2.cd = .ok (s.body, s.stored) := by
+          intro s hs
+          subst hs
+          exact ⟨0, by simp, by simp, by simpa using hrend, by simpa using hsf⟩
+        dsimp only at hs
+        split at hs
+        · simp only [List.mem_singleton] at hs
+          exact here s hs
+        · simp only [List.mem_cons] at hs
+          rcases hs with hs | hs
+          · exact here s hs
+          · exact later s hs
+        · simp only [List.mem_cons] at hs
+          rcases hs with hs | hs
+          · exact here s hs
+          · exact later s hs
 
 /-- if the apply loop does not abort, every rendered template gets a write -/
 theorem applyLoop_complete (l : List (Tpl × Rendered)) : ∀ (i0 : Nat), (applyLoop i0 l).2.2.2 = false →
@@ -104,26 +149,32 @@ theorem applyLoop_complete (l : List (Tpl × Rendered)) : ∀ (i0 : Nat), (apply
         exact ⟨w, hw, by rw [hi]; congr 1; omega⟩
     · rename_i hnr
       rw [if_neg hnr] at hab
-      dsimp only at hab ⊢
       split
-      · rename_i ho
-        rw [ho] at hab
+      · rename_i hsf
+        rw [hsf] at hab
         simp at hab
-      · rename_i ho
-        rw [ho] at hab
-        simp only at hab
-        cases j with
-        | zero => exact ⟨_, List.mem_cons_self, by simp⟩
-        | succ k =>
-          obtain ⟨w, hw, hi⟩ := ih (i0 + 1) hab k (by simpa using hj) (by simpa using hr)
-          exact ⟨w, List.mem_cons_of_mem _ hw, by rw [hi]; congr 1; omega⟩
-      · rename_i ho
-        rw [ho] at hab
-        simp only at hab
-        cases j with
-        | zero => exact ⟨_, List.mem_cons_self, by simp⟩
-        | succ k =>
-          obtain ⟨w, hw, hi⟩ := ih (i0 + 1) hab k (by simpa using hj) (by simpa using hr)
-          exact ⟨w, List.mem_cons_of_mem _ hw, by rw [hi]; congr 1; omega⟩
+      · rename_i b st hsf
+        rw [hsf] at hab
+        dsimp only at hab ⊢
+        split
+        · rename_i ho
+          rw [ho] at hab
+          simp at hab
+        · rename_i ho
+          rw [ho] at hab
+          simp only at hab
+          cases j with
+          | zero => exact ⟨_, List.mem_cons_self, by simp⟩
+          | succ k =>
+            obtain ⟨w, hw, hi⟩ := ih (i0 + 1) hab k (by simpa using hj) (by simpa using hr)
+            exact ⟨w, List.mem_cons_of_mem _ hw, by rw [hi]; congr 1; omega⟩
+        · rename_i ho
+          rw [ho] at hab
+          simp only at hab
+          cases j with
+          | zero => exact ⟨_, List.mem_cons_self, by simp⟩
+          | succ k =>
+            obtain ⟨w, hw, hi⟩ := ih (i0 + 1) hab k (by simpa using hj) (by simpa using hr)
+            exact ⟨w, List.mem_cons_of_mem _ hw, by rw [hi]; congr 1; omega⟩
 
 end Xp.C10
